@@ -1604,7 +1604,15 @@ impl TypeLayout {
 
         log::debug!("lhs:{lhs:?} rhs:{rhs:?} f:{:?}", flags.deref());
 
-        if lhs == rhs {
+        // two list types, or two present optionals, are compared part by part below, under the flags of
+        // this comparison: `==` on them is this relation without the flags (a `[int?...]` parameter would
+        // pass for a `[int...]` one), and asking it first walks nested types twice on every level
+        let compared_by_parts = matches!(
+            (lhs.as_ref(), rhs.as_ref()),
+            (Self::List(..), Self::List(..)) | (Self::Optional(Some(..)), Self::Optional(Some(..)))
+        );
+
+        if !compared_by_parts && lhs == rhs {
             return if flags.force_rhs_to_be_unwrapped_lhs {
                 let x = !rhs.is_optional().0;
                 log::debug!("x:{x}");
